@@ -363,7 +363,10 @@ pub fn verif_parse_go_command(commands: &[&str]) -> GameTime {
 pub fn read_from_gui() -> String {
     let stdin = io::stdin();
     let mut buffer = String::new();
-    stdin.lock().read_line(&mut buffer).unwrap();
+    if stdin.lock().read_line(&mut buffer).unwrap() == 0 {
+        // end of input, the GUI is gone and no further command can arrive
+        process::exit(0);
+    }
     buffer = clean_input(&buffer);
     info!("ENGINE << {}", buffer);
     buffer
